@@ -3,122 +3,20 @@ import os, sys
 from vcommon import *
 import e2
 sys.path.insert(0, os.path.join(VERIF, "harness", "llsym"))
-import trees, core
-from trees import Tree, lt, eq, conj
+import trees, treecheck
 
 PID = "C01"
-KIND = "avl"
-SRC = ["avl.c"]
-PFX = "a_avl"
-I64 = core.ir.int_t(64)
-
-
-def step_harness(shape, op):
-    """One operation with symbolic argument from the constructed valid tree `shape`."""
-    def h(ex):
-        t = Tree(ex, KIND)
-        nodes = t.build(shape)
-        ex.path_tags = [trees.shape_str(shape), op]
-        if op == "insert":
-            k = ex.fresh_bv("newkey", 64)
-            n = t.new_node(k, "new")
-            # stale contents of the node object must not matter
-            t.tr.store(n, ex.fresh_bv("junk_l", 64), 8)
-            t.tr.store(n + 8, ex.fresh_bv("junk_r", 64), 8)
-            t.tr.store(n + 16, ex.fresh_bv("junk_p", 64), 8)
-            before = t.snapshot()
-            r = t.tr.call(PFX + "_insert", t.root, n, t.cmp, ret="ptr")
-            if r != 0:
-                ex.check(r in nodes, "insert:duplicate-returns-resident-node", hex(r) if isinstance(r, int) else str(r))
-                ex.check(eq(t.key[r], k), "insert:returned-node-has-equal-key")
-                after = t.snapshot()
-                same = all(a == b for x in nodes for a, b in zip(before[0][x], after[0][x])) and before[1] == after[1]
-                ex.check(same, "insert:duplicate-changes-nothing")
-                t.check_invariants(set(nodes), "insert-duplicate")
-            else:
-                ex.check(conj([z3not(eq(t.key[x], k)) for x in nodes]), "insert:null-only-when-key-absent")
-                t.check_invariants(set(nodes) | {n}, "insert")
-        elif op == "remove":
-            v = ex.pick(nodes, "victim")
-            t.tr.call(PFX + "_remove", t.root, v, ret="void")
-            t.check_invariants(set(nodes) - {v}, "remove")
-        elif op == "search":
-            k = ex.fresh_bv("probe", 64)
-            ctx = t.tr.alloc(trees.NODE, "probe")
-            t.tr.store(ctx + trees.KEY, k, 8)
-            before = t.snapshot()
-            r = t.tr.call(PFX + "_search", t.root, ctx, t.cmp, ret="ptr")
-            if r != 0:
-                ex.check(r in nodes, "search:returns-resident-node")
-                ex.check(eq(t.key[r], k), "search:found-node-has-equal-key")
-            else:
-                ex.check(conj([z3not(eq(t.key[x], k)) for x in nodes]), "search:null-only-when-absent")
-            ex.check(before == t.snapshot(), "search:does-not-modify")
-    return h
-
-
-def z3not(c):
-    import z3
-    return (not c) if isinstance(c, bool) else z3.Not(c)
-
-
-def history_harness(ops):
-    """ops: string over I (insert fresh symbolic key) / R (remove a symbolic resident) from the empty tree."""
-    def h(ex):
-        t = Tree(ex, KIND)
-        live = []
-        ex.path_tags = [ops]
-        for i, op in enumerate(ops):
-            if op == "I":
-                k = ex.fresh_bv("key%d" % i, 64)
-                n = t.new_node(k, "h")
-                r = t.tr.call(PFX + "_insert", t.root, n, t.cmp, ret="ptr")
-                if r != 0:
-                    ex.check(r in live and r != n, "history:duplicate-returns-resident")
-                    ex.check(eq(t.key[r], k), "history:duplicate-key-equal")
-                else:
-                    ex.check(conj([z3not(eq(t.key[x], k)) for x in live]), "history:null-only-when-absent")
-                    live.append(n)
-            else:
-                if not live:
-                    raise core.Infeasible()
-                v = ex.pick(live, "victim%d" % i)
-                t.tr.call(PFX + "_remove", t.root, v, ret="void")
-                live.remove(v)
-            t.check_invariants(set(live), "history-step%d-%s" % (i, op))
-    return h
-
-
-def builder(params):
-    if params[0] == "step":
-        _, shape, op = params
-        return "%s/%s" % (trees.shape_str(shape), op), step_harness(shape, op)
-    return params[1], history_harness(params[1])
-
-
-def op_strings(k):
-    out = []
-
-    def rec(s, live):
-        if len(s) == k:
-            out.append(s)
-            return
-        rec(s + "I", live + 1)
-        if live > 0:
-            rec(s + "R", live - 1)
-    rec("", 0)
-    return [s for s in out]
 
 
 def main():
+    treecheck.CFG.update(KIND="avl", PFX="a_avl")
     cfg = gen_config()
     res = Result(PID)
     T = tier()
     H, K = (3, 5) if T == "quick" else (4, 7)
     shapes = [s for h in range(0, H + 1) for s in trees.avl_shapes(h)]
     inst = [("step", s, op) for s in shapes for op in ("insert", "remove", "search") if not (s is None and op == "remove")]
-    # histories: all insert/remove patterns of length K that start from the empty tree (keys, victims symbolic)
-    hist = [("hist", s) for s in op_strings(K)]
+    hist = [("hist", s) for s in treecheck.op_strings(K)]
     res.functions.update(["a_avl_insert", "a_avl_insert_adjust", "a_avl_handle_growth", "a_avl_rotate", "a_avl_rotate2", "a_avl_remove",
                           "a_avl_handle_remove", "a_avl_handle_shrink", "a_avl_search", "a_avl_new_child", "a_avl_set_parent",
                           "a_avl_init", "a_avl_parent"])
@@ -130,10 +28,11 @@ def main():
     res.assumptions = ["llsym executes the clang-14 -O0 + sroa,mem2reg IR of src/avl.c; validated each run against the native build on sampled paths",
                        "keys are 64-bit signed integers compared by a strict total order; nodes are 16-byte aligned"]
     res.stubs = ["cmp callback: Python hook returning the symbolic sign of key(a) - key(b) (C replay: cmp_key)"]
-    e2.run_e2(res, cfg, SRC, inst, builder, group="step", validate_every=7, time_budget=600 if T == "quick" else 3000)
-    e2.run_e2(res, cfg, SRC, hist, builder, group="history", validate_every=5, time_budget=600 if T == "quick" else 3000)
+    TB = 900 if T == "quick" else 6000
+    e2.run_e2(res, cfg, ["avl.c"], inst, treecheck.builder, group="step", validate_every=7, time_budget=TB)
+    e2.run_e2(res, cfg, ["avl.c"], hist, treecheck.builder, group="history", validate_every=5, time_budget=TB)
     e2.finish_coverage(res, must_cover=["a_avl_insert", "a_avl_remove", "a_avl_search", "a_avl_insert_adjust"],
-                       report_funcs=set(f for f in res.functions) | {"a_avl_insert", "a_avl_remove", "a_avl_search", "a_avl_insert_adjust"})
+                       report_funcs={"a_avl_insert", "a_avl_remove", "a_avl_search", "a_avl_insert_adjust"})
     return res.finish()
 
 
